@@ -1,6 +1,7 @@
 // C06 (part): arrays whose INDEX type is narrow, with lengths up to and including the full index range.
 // dump -> load -> bitwise comparison -> second dump byte-identical.
 #include <cstdint>
+#include <cstdio>
 #include <cstring>
 #include <sstream>
 
@@ -58,10 +59,71 @@ static void one(std::size_t len, vh::Rng & rng)
     vh::sample("narrow-index", nm + " length " + std::to_string(len) + " dump=" + std::to_string(d1.size()) + "B", 4);
 }
 
+// fields that hold no cells at all: a zero extent, a zero-length array, a default-constructed field.  "All extent vectors"
+// includes these; the payload is empty but header, element count and footer of every layer are still written and read.
+template <typename F>
+static void empty_one(const std::string & nm, const F & f, std::size_t want_cells, const char * spec)
+{
+    vh::set_case("empty field %s", nm.c_str());
+    const std::string tag = "empty:" + nm;
+    std::ostringstream o1(std::ios::binary);
+    f.dump(o1);
+    const std::string d1 = o1.str();
+    {
+        // for the independent parser of the format grammar (C07): spec = kind,m,width[,extents]
+        std::string hx;
+        static const char * dg = "0123456789abcdef";
+        for (unsigned char ch : d1) {
+            hx.push_back(dg[ch >> 4]);
+            hx.push_back(dg[ch & 15]);
+        }
+        std::printf("@EMPTY %s\t%s\t%s\n", nm.c_str(), spec, hx.c_str());
+    }
+    vh::ev();
+    vh::nontrivial(vh::fnv(nm));
+    try {
+        std::istringstream is(d1, std::ios::binary);
+        F g(is);
+        if (is.peek() != std::char_traits<char>::eof()) vh::viol(tag + ":trailing-bytes", "the load left bytes of its own dump unread");
+        std::ostringstream o2(std::ios::binary);
+        g.dump(o2);
+        if (o2.str() != d1) vh::viol(tag + ":redump", "second dump (" + std::to_string(o2.str().size()) + "B) differs from the first (" + std::to_string(d1.size()) + "B)");
+        // a copy and an assigned-over field dump the same bytes too
+        F h(g);
+        std::ostringstream o3(std::ios::binary);
+        h.dump(o3);
+        if (o3.str() != d1) vh::viol(tag + ":copy-redump", "dump of a copy of the reloaded field differs");
+    } catch (const std::exception & e) {
+        vh::viol(tag + ":rejected", std::string("the library's own dump of a field with ") + std::to_string(want_cells) + " cells does not load: " + e.what());
+    }
+    vh::sample("empty", nm + " dump=" + std::to_string(d1.size()) + "B", 6);
+}
+
+static void empties()
+{
+    using A1 = cb::array<cv::float2>;
+    using A2 = cb::array<cv::double1>;
+    using S1 = cb::strided<cv::size1, cb::array<cv::float1>>;
+    using S2 = cb::strided<cv::size2, cb::array<cv::double3>>;
+    using S3 = cb::strided<cv::size3, cb::array<cv::float3>>;
+    empty_one("array<float2>{0}", covfie::field<A1>(covfie::make_parameter_pack(A1::configuration_t{0ul})), 0, "A,2,4");
+    empty_one("array<double1>{0}", covfie::field<A2>(covfie::make_parameter_pack(A2::configuration_t{0ul})), 0, "A,1,8");
+    empty_one("array<float2> default-constructed", covfie::field<A1>(), 0, "A,2,4");
+    empty_one("strided<size1,array<float1>>{0}", covfie::field<S1>(covfie::make_parameter_pack(S1::configuration_t{0ul})), 0, "S,1,4,0");
+    empty_one("strided<size2,array<double3>>{0,5}", covfie::field<S2>(covfie::make_parameter_pack(S2::configuration_t{0ul, 5ul})), 0, "S,3,8,0:5");
+    empty_one("strided<size2,array<double3>>{5,0}", covfie::field<S2>(covfie::make_parameter_pack(S2::configuration_t{5ul, 0ul})), 0, "S,3,8,5:0");
+    empty_one("strided<size3,array<float3>>{4,0,7}", covfie::field<S3>(covfie::make_parameter_pack(S3::configuration_t{4ul, 0ul, 7ul})), 0, "S,3,4,4:0:7");
+    empty_one("strided<size3,array<float3>> default-constructed", covfie::field<S3>(), 0, "S,3,4,0:0:0");
+}
+
 int main(int argc, char ** argv)
 {
     vh::init(argc, argv);
     vh::Rng rng(vh::st().seed * 8191 + 6);
+#ifdef VERIF_EMPTIES_ONLY
+    empties();
+    return vh::finish();
+#endif
     for (std::size_t len : {1ul, 5ul, 200ul, 255ul, 256ul}) {
         one<unsigned char, float, 1>(len, rng);
         one<unsigned char, double, 3>(len, rng);
@@ -74,5 +136,6 @@ int main(int argc, char ** argv)
         one<unsigned, float, 3>(len, rng);
         one<int, double, 2>(len, rng);
     }
+    empties();
     return vh::finish();
 }
